@@ -39,9 +39,37 @@ pub mod micromap {
         pub fn len(&self) -> (r: usize) ensures r == self.view().len() { unimplemented!() }
 
         #[verifier::external_body]
+        pub fn is_empty(&self) -> (r: bool) ensures r == (self.view().len() == 0) { unimplemented!() }
+
+        #[verifier::external_body]
+        pub fn capacity(&self) -> (r: usize) ensures r == N { unimplemented!() }
+
+        #[verifier::external_body]
         pub fn iter(&self) -> (r: Iter<'_, K, V>) ensures r.src() == self.view(), r.pos() == 0 { unimplemented!() }
     }
     impl<K: PartialEq, V, const N: usize> Map<K, V, N> {
+        /// swap-remove: the last pair moves into the hole (this is what micromap 0.0.19 does)
+        #[verifier::external_body]
+        pub fn remove(&mut self, k: &K) -> (r: Option<V>)
+            ensures
+                key_index(old(self).view(), *k) < 0 ==> r.is_none() && final(self).view() == old(self).view(),
+                key_index(old(self).view(), *k) >= 0 ==> r == Some(old(self).view()[key_index(old(self).view(), *k)].1)
+                    && final(self).view() == (if key_index(old(self).view(), *k) == old(self).view().len() - 1 { old(self).view().drop_last() }
+                        else { old(self).view().update(key_index(old(self).view(), *k), old(self).view().last()).drop_last() }),
+        { unimplemented!() }
+
+        #[verifier::external_body]
+        pub fn get(&self, k: &K) -> (r: Option<&V>)
+            ensures
+                key_index(self.view(), *k) < 0 ==> r.is_none(),
+                key_index(self.view(), *k) >= 0 ==> r == Some(&self.view()[key_index(self.view(), *k)].1),
+        { unimplemented!() }
+
+        #[verifier::external_body]
+        pub fn contains_key(&self, k: &K) -> (r: bool)
+            ensures r == (key_index(self.view(), *k) >= 0),
+        { unimplemented!() }
+
         #[verifier::external_body]
         pub fn insert(&mut self, k: K, v: V) -> (r: Option<V>)
             requires key_index(old(self).view(), k) >= 0 || old(self).view().len() < N,
